@@ -30,7 +30,7 @@ var (
 )
 
 type Case struct {
-	Kind  string // abort-close abort-reset iofault hello-mutation hello-truncation h2-mutation plain-http stall slow-reader
+	Kind  string // abort-close abort-reset iofault hello-mutation hello-truncation h2-mutation plain-http stall slow-reader h2-flood
 	Proto string // h1 h2
 	K     int    // byte offset / op index / mutation index
 	Err   string // for iofault
@@ -237,6 +237,43 @@ func Run(t *testing.T, cs Case, opts bubble.StackOpts, hello []byte, oracle func
 				synctest.Wait()
 				cl.Close()
 			}
+		case "h2-flood":
+			// a legal but abusive volume of one frame kind on one connection (K: 0 PRIORITY on new ids, 1 PRIORITY on one id,
+			// 2 PING, 3 SETTINGS, 4 WINDOW_UPDATE(0,1), 5 HEADERS+RST_STREAM pairs), then a PING
+			cl = st.Connect("victim", nil, HelloH2)
+			synctest.Wait()
+			cl.StartH2()
+			synctest.Wait()
+			n := cs.Val
+			var buf []byte
+			for i := 0; i < n; i++ {
+				switch cs.K {
+				case 0:
+					buf = append(buf, h2wire.Priority(uint32(3+2*i), h2wire.Prio{Dep: 0, Weight: uint8(i)})...)
+				case 1:
+					buf = append(buf, h2wire.Priority(7, h2wire.Prio{Dep: uint32(i%5) * 2, Excl: i%2 == 0, Weight: uint8(i)})...)
+				case 2:
+					buf = append(buf, h2wire.Ping(false, [8]byte{byte(i), byte(i >> 8)})...)
+				case 3:
+					buf = append(buf, h2wire.Settings(h2wire.Setting{ID: 4, Val: uint32(65535 + i)})...)
+				case 4:
+					buf = append(buf, h2wire.WindowUpdate(0, 1)...)
+				default:
+					id := uint32(1 + 2*i)
+					blk := cl.Enc.Block(h2wire.HF{":method", "GET"}, h2wire.HF{":scheme", "https"}, h2wire.HF{":authority", "localhost"}, h2wire.HF{":path", "/flood"})
+					buf = append(buf, h2wire.Headers(id, blk, true, true, nil, -1)...)
+					buf = append(buf, h2wire.RST(id, 8)...)
+				}
+				if len(buf) > 32000 {
+					cl.Write(buf)
+					buf = buf[:0]
+					synctest.Wait()
+				}
+			}
+			cl.Write(buf)
+			synctest.Wait()
+			cl.Write(h2wire.Ping(false, [8]byte{9, 9, 9}))
+			synctest.Wait()
 		case "h2-mutation":
 			cl = st.Connect("victim", nil, HelloH2)
 			synctest.Wait()
@@ -251,7 +288,7 @@ func Run(t *testing.T, cs Case, opts bubble.StackOpts, hello []byte, oracle func
 		// let every armed timer fire (handshake timeout 10 s, http2 goaway/settings timers)
 		time.Sleep(40 * time.Second)
 		synctest.Wait()
-		if cs.Kind == "stall" || cs.Kind == "plain-http" || cs.Kind == "h2-mutation" {
+		if cs.Kind == "stall" || cs.Kind == "plain-http" || cs.Kind == "h2-mutation" || cs.Kind == "h2-flood" {
 			cl.Close() // the stalled client finally goes away
 			if cl.Raw != nil {
 				cl.Raw.Close()
